@@ -390,6 +390,19 @@ theorem c17_prom_no_escape (op : String) (m : Extracted.C17Prom.Method) (hm : (o
   have := (C17Prom.table_op op m hm).2.1
   simp [C17Prom.propagates, this]
 
+/-- **own namespace, unit, labels, help — partial**: under the hypothesis `firstUse` (no object is cached yet for
+    this name and type) an accepted report lands in an object registered under the report's own
+    `<namespace>_<name>[_<unit>]` (client naming rule `buildFullName`), with the report's label names and its help text
+    as documentation.  Without the hypothesis this is false: `c17_prom_namespace_witness`. -/
+theorem c17_prom_namespace_partial (p p' : C17Prom.Plugin) (op : String) (m : Extracted.C17Prom.Method)
+    (a : C17Prom.Args) (hm : (op, m) ∈ Extracted.C17Prom.methods)
+    (firstUse : p.cache.lookup (Extracted.C17Prom.cacheKey a.name m.typeName) = none)
+    (h : C17Prom.call p m a = (p', .ok)) :
+    ∃ f, p'.cache.lookup (Extracted.C17Prom.cacheKey a.name m.typeName) = some f ∧
+      C17Prom.buildFullName m.cls (some a.name) a.ns a.unit = some f.fullName ∧
+      f.labelNames = a.labels.map (·.1) ∧ f.doc = (C17Prom.truthy a.help).getD "" ∧ f.cls = m.cls :=
+  C17Prom.call_first_use p p' op m a hm firstUse h
+
 /-- witness (suspicious behaviour, see notes/probes/c17_prom_cache_key.py): the cache key carries neither the
     namespace nor the unit nor the label names — a second metric of the same name and type but another namespace is
     accepted and counted on the FIRST metric's time series (`a_hits`), nothing appears under `b_hits`. -/
